@@ -386,3 +386,349 @@ Proof.
     + cbn. lia.
     + exists []. reflexivity.
 Qed.
+
+(* ------------------------------------------------------------------ qb_loop_job_del *)
+Lemma occ_remove_first_gen : forall f x l y r, remove_first f l = Some (y, r) ->
+  occ x r = occ x l - (if qitem_eqb x y then 1 else 0) /\ (forall it, In it r -> In it l) /\ In y l /\ f y = true.
+Proof.
+  intros f x l y r H. apply remove_first_spec in H. destruct H as (l1 & l2 & -> & -> & F & _).
+  split; [rewrite !occ_app; cbn; lia|]. split; [|split; [apply in_or_app; cbn; auto|exact F]].
+  intros it Hin. apply in_app_or in Hin. apply in_or_app. cbn. tauto.
+Qed.
+Lemma is_job_key_job : forall key it, is_job_key key it = true -> exists u k, it = QJob u k.
+Proof. destruct it; cbn; try discriminate. eauto. Qed.
+
+(* no job with this uid is left once the one occurrence is gone *)
+Lemma job_not_live : forall st u k, occ_all (QJob u k) st <= 0 -> ~ live st 0 u.
+Proof.
+  intros st u k H [[_ (key' & Hin)]|[[K _]|[[K _]|[K _]]]]; try discriminate K.
+  apply in_occ_all in Hin. unfold occ_all in *.
+  rewrite (occ_eqb (QJob u key') (QJob u k) (all_items st)) in Hin by (cbn; apply Z.eqb_refl). lia.
+Qed.
+
+Lemma job_del_ok : forall p key st, inv st -> inv (snd (job_del p key st)) /\ opframe st (snd (job_del p key st)).
+Proof.
+  intros p key st I. unfold job_del.
+  destruct (remove_first (is_job_key key) (wait (lv st p))) as [[it r]|] eqn:R.
+  - (* found on the wait list *)
+    cbn [snd]. destruct (occ_remove_first_gen _ it _ _ _ R) as (_ & _ & Hin & Fk).
+    destruct (is_job_key_job _ _ Fk) as (u & k & ->). cbn [item_uid].
+    rewrite upd_level_emit.
+    set (s1 := upd_level p (fun l => {| wait := r; jobq := jobq l; todo := todo l |}) st).
+    assert (SH : shrinks st s1).
+    { constructor; try reflexivity.
+      - intros x. unfold s1. rewrite occ_all_upd_level. cbn [jobq wait].
+        destruct (occ_remove_first_gen _ x _ _ _ R) as (E & _). rewrite E. destruct (qitem_eqb x (QJob u k)); lia.
+      - intros y H. unfold s1 in H. apply in_all_upd_level in H. cbn [jobq wait] in H.
+        destruct (occ_remove_first_gen _ y _ _ _ R) as (_ & Sub & _).
+        destruct H as [H|[H|H]]; auto; apply in_all_items; exists p; auto.
+      - intros q y H. unfold s1, upd_level, set_lv in H. cbn in H. destruct (prio_eqb q p) eqn:E; [|exact H].
+        apply prio_eqb_eq in E; subst. cbn in H. destruct (occ_remove_first_gen _ y _ _ _ R) as (_ & Sub & _). auto. }
+    assert (I1 : inv s1) by (eapply inv_shrinks; eauto).
+    assert (Hall : In (QJob u k) (all_items st)) by (apply in_all_items; exists p; auto).
+    assert (U : u < next_uid st) by (destruct I as (_ & _ & _ & _ & (_ & _ & _ & _ & Q5 & _) & _); eauto).
+    assert (Z0 : occ_all (QJob u k) s1 <= 0).
+    { unfold s1. rewrite occ_all_upd_level. cbn [jobq wait].
+      destruct (occ_remove_first_gen _ (QJob u k) _ _ _ R) as (E & _). rewrite E. rewrite qitem_eqb_refl.
+      destruct I as (_ & _ & _ & _ & (Q1 & _) & _). specialize (Q1 (QJob u k)). lia. }
+    split.
+    + apply inv_emit_del; [exact I1|exact U|]. eapply job_not_live; eauto.
+    + apply (opframe_trans st s1); [apply opframe_shrinks; exact SH|apply opframe_emit].
+  - destruct (find (is_job_key key) (jobq (lv st p))) as [it|] eqn:Fd; cbn [snd]; [|split; [exact I|apply opframe_refl]].
+    apply find_some in Fd. destruct Fd as [Hin Fk]. destruct (is_job_key_job _ _ Fk) as (u & k & ->). cbn [item_uid].
+    rewrite item_del_emit.
+    set (s1 := item_del p (QJob u k) st).
+    assert (I1 : inv s1) by (apply inv_item_del; exact I).
+    assert (Hall : In (QJob u k) (all_items st)) by (apply in_all_items; exists p; auto).
+    assert (U : u < next_uid st) by (destruct I as (_ & _ & _ & _ & (_ & _ & _ & _ & Q5 & _) & _); eauto).
+    assert (Z0 : occ_all (QJob u k) s1 <= 0).
+    { unfold s1. rewrite occ_all_item_del. rewrite qitem_eqb_refl.
+      assert (1 <= occ (QJob u k) (jobq (lv st p))) by (eapply occ_in; eauto; apply qitem_eqb_refl).
+      pose proof (occ_nonneg (QJob u k) (jobq (lv st High))). pose proof (occ_nonneg (QJob u k) (jobq (lv st Med))).
+      pose proof (occ_nonneg (QJob u k) (jobq (lv st Low))).
+      replace (1 <=? _) with true; [|symmetry; apply Z.leb_le; destruct p; lia].
+      destruct I as (_ & _ & _ & _ & (Q1 & _) & _). specialize (Q1 (QJob u k)). lia. }
+    split.
+    + apply inv_emit_del; [exact I1|unfold s1; rewrite (sh_uid _ _ (shrinks_item_del p (QJob u k) st)); exact U|]. eapply job_not_live; eauto.
+    + apply (opframe_trans st s1); [apply opframe_item_del|apply opframe_emit].
+Qed.
+
+(* ------------------------------------------------------------------ changes to the timer table *)
+Lemma live_change_timers : forall st st' (P : Z -> Prop),
+  all_items st' = all_items st -> polls st' = polls st -> sigs st' = sigs st ->
+  (forall a, live_timer st' a -> live_timer st a \/ P a) ->
+  forall k a, live st' k a -> live st k a \/ (k = 1 /\ P a).
+Proof.
+  intros st st' P A Pl S H k a [[K L]|[[K L]|[[K L]|[K L]]]].
+  - left. left. split; [exact K|]. unfold live_job in *. rewrite A in L. exact L.
+  - destruct (H a L) as [L'|L']; [left; right; left; auto|right; auto].
+  - left. right; right; left. split; [exact K|]. unfold live_fd in *. rewrite Pl in L. exact L.
+  - left. right; right; right. split; [exact K|]. unfold live_sig in *. rewrite S in L. exact L.
+Qed.
+
+(* the parts of the invariant that do not read the timer table *)
+Lemma inv_set_timers : forall ts st, inv st ->
+  inv_t ts (next_uid st) ->
+  (forall i, In (QTimer i) (all_items st) -> exists t, nth_error ts i = Some t /\ t_state t = Joblist) ->
+  (forall a, live_timer (set_timers ts st) a -> live_timer st a \/ ~ gone (out st) 1 a) ->
+  inv (set_timers ts st).
+Proof.
+  intros ts st (I0 & IT & IP & IS & IQ & IG & IR & IRA & IF) NT NQ NL. unfold inv.
+  change (next_uid (set_timers ts st)) with (next_uid st). change (polls (set_timers ts st)) with (polls st).
+  change (sigs (set_timers ts st)) with (sigs st). change (regs (set_timers ts st)) with (regs st).
+  change (fx (set_timers ts st)) with (fx st). change (timers (set_timers ts st)) with ts.
+  split; [exact I0|]. split; [exact NT|]. split; [exact IP|]. split; [exact IS|].
+  split; [|split; [|split; [exact IR|split; [exact IRA|exact IF]]]].
+  - destruct IQ as (Q1 & Q2 & Q3 & Q4 & Q5 & Q6 & Q7). unfold inv_q.
+    split; [exact Q1|]. split; [exact NQ|]. split; [exact Q3|]. split; [exact Q4|]. split; [exact Q5|]. split; [exact Q6|exact Q7].
+  - destruct IG as (G1 & G2 & G3). split; [exact G1|]. split; [|exact G3].
+    intros k a Hg Hl.
+    destruct (live_change_timers st (set_timers ts st) (fun a => ~ gone (out st) 1 a) eq_refl eq_refl eq_refl NL k a Hl) as [H|[K H]].
+    + exact (G2 k a Hg H).
+    + subst k. exact (H Hg).
+Qed.
+Lemma opframe_set_timers : forall ts st,
+  (forall i, tparked st i -> tparked (set_timers ts st) i) -> opframe st (set_timers ts st).
+Proof.
+  intros ts st H. constructor.
+  - intros; apply Z.le_refl.
+  - exact H.
+  - intros i u P. exact P.
+  - intros S; exact S.
+  - cbn; lia.
+  - exists []. reflexivity.
+Qed.
+
+(* growing the table by a zeroed slot *)
+Lemma inv_timers_grow : forall st, inv st -> inv (set_timers (timers st ++ [tslot_zero]) st).
+Proof.
+  intros st I. pose proof I as (I0 & (T1 & T2 & T3) & _ & _ & (_ & Q2 & _) & _).
+  apply inv_set_timers; [exact I| | |].
+  - split; [|split].
+    + intros i t H. apply nth_error_app_new in H. destruct H as [H|[_ ->]]; [eauto|cbn; congruence].
+    + intros i t H. apply nth_error_app_new in H. destruct H as [H|[_ ->]]; [eauto|cbn; lia].
+    + intros i j ti tj Hi Hj Si Sj E. apply nth_error_app_new in Hi. apply nth_error_app_new in Hj.
+      destruct Hi as [Hi|[_ ->]]; [|cbn in Si; congruence]. destruct Hj as [Hj|[_ ->]]; [|cbn in Sj; congruence]. eauto.
+  - intros i H. destruct (Q2 i H) as (t & A & B). exists t. split; [|exact B].
+    rewrite nth_error_app1; [exact A|]. apply nth_error_Some. congruence.
+  - intros a (i & t & A & B & C). left. cbn in A. apply nth_error_app_new in A. destruct A as [A|[_ ->]].
+    + exists i, t. auto.
+    + cbn in C. destruct C as [C|[C _]]; discriminate.
+Qed.
+Lemma tparked_grow : forall st i, tparked st i -> tparked (set_timers (timers st ++ [tslot_zero]) st) i.
+Proof.
+  intros st i [(t & A & B) C]. split; [|exact C]. exists t. split; [|exact B]. cbn.
+  rewrite nth_error_app1; [exact A|]. apply nth_error_Some. congruence.
+Qed.
+
+(* a slot whose state, uid and heap entry stay (e.g. only the check word changes) *)
+Lemma inv_timer_touch : forall i g st, inv st ->
+  (forall t, t_state (g t) = t_state t /\ t_uid (g t) = t_uid t /\ t_exp (g t) = t_exp t) ->
+  inv (set_timers (upd_nth i g (timers st)) st).
+Proof.
+  intros i g st I G. pose proof I as (I0 & (T1 & T2 & T3) & _ & _ & (_ & Q2 & _) & _).
+  assert (N : forall j t', nth_error (upd_nth i g (timers st)) j = Some t' ->
+              exists t, nth_error (timers st) j = Some t /\ t_state t' = t_state t /\ t_uid t' = t_uid t /\ t_exp t' = t_exp t).
+  { intros j t' H. rewrite nth_upd_nth in H. destruct (Nat.eqb i j).
+    - destruct (nth_error (timers st) j) as [t|]; [|discriminate]. cbn in H. inversion H; subst. exists t. split; [reflexivity|apply G].
+    - exists t'. auto. }
+  apply inv_set_timers; [exact I| | |].
+  - split; [|split].
+    + intros j t' H E. destruct (N j t' H) as (t & A & B & C & D). rewrite B. apply (T1 j t A). congruence.
+    + intros j t' H. destruct (N j t' H) as (t & A & B & C & D). rewrite C. eauto.
+    + intros a b ta tb Ha Hb Sa Sb E. destruct (N a ta Ha) as (t1 & A1 & B1 & C1 & D1). destruct (N b tb Hb) as (t2 & A2 & B2 & C2 & D2).
+      apply (T3 a b t1 t2); congruence.
+  - intros j H. destruct (Q2 j H) as (t & A & B). rewrite nth_upd_nth. rewrite A. destruct (Nat.eqb i j); cbn.
+    + exists (g t). split; [reflexivity|]. destruct (G t) as (E & _). congruence.
+    + exists t. auto.
+  - intros a (j & t' & A & B & C). left. cbn in A. destruct (N j t' A) as (t & A1 & B1 & C1 & D1).
+    exists j, t. split; [exact A1|]. split; [congruence|]. rewrite <- B1. exact C.
+Qed.
+
+(* slot i leaves the game: EMPTY, no heap entry; it must be on no list *)
+Lemma inv_timer_clear : forall i g st, inv st -> occ_all (QTimer i) st = 0 ->
+  (forall t, t_state (g t) = Empty /\ t_uid (g t) = t_uid t /\ t_exp (g t) = None) ->
+  inv (set_timers (upd_nth i g (timers st)) st) /\
+  (forall t, nth_error (timers st) i = Some t -> t_state t <> Empty -> ~ live (set_timers (upd_nth i g (timers st)) st) 1 (t_uid t)).
+Proof.
+  intros i g st I Z G. pose proof I as (I0 & (T1 & T2 & T3) & _ & _ & (_ & Q2 & _) & _).
+  assert (N : forall j t', nth_error (upd_nth i g (timers st)) j = Some t' ->
+              (j <> i /\ nth_error (timers st) j = Some t') \/
+              (j = i /\ exists t, nth_error (timers st) i = Some t /\ t' = g t)).
+  { intros j t' H. rewrite nth_upd_nth in H. destruct (Nat.eqb i j) eqn:E.
+    - apply Nat.eqb_eq in E; subst. destruct (nth_error (timers st) j) as [t|]; [|discriminate]. cbn in H. inversion H; subst.
+      right. split; [reflexivity|]. exists t. auto.
+    - apply Nat.eqb_neq in E. left. split; [congruence|exact H]. }
+  split.
+  - apply inv_set_timers; [exact I| | |].
+    + split; [|split].
+      * intros j t' H E. destruct (N j t' H) as [[_ A]|[_ (t & A & ->)]]; [eauto|]. destruct (G t) as (_ & _ & X). congruence.
+      * intros j t' H. destruct (N j t' H) as [[_ A]|[_ (t & A & ->)]]; [eauto|]. destruct (G t) as (_ & X & _). rewrite X. eauto.
+      * intros a b ta tb Ha Hb Sa Sb E.
+        destruct (N a ta Ha) as [[Na A]|[_ (t & A & ->)]]; [|destruct (G t) as (X & _); congruence].
+        destruct (N b tb Hb) as [[Nb B]|[_ (t & B & ->)]]; [|destruct (G t) as (X & _); congruence]. eauto.
+    + intros j H. destruct (Q2 j H) as (t & A & B). assert (j <> i) by (intros ->; apply in_occ_all in H; lia).
+      exists t. split; [|exact B]. rewrite nth_upd_nth_other; auto.
+    + intros a (j & t' & A & B & C). left. cbn in A. destruct (N j t' A) as [[_ A1]|[_ (t & A1 & ->)]].
+      * exists j, t'. auto.
+      * destruct (G t) as (X & _). destruct C as [C|[C _]]; congruence.
+  - intros t Hn Hs [[K _]|[[_ (j & t' & A & B & C)]|[[K _]|[K _]]]]; try discriminate K.
+    cbn in A. destruct (N j t' A) as [[Nj A1]|[_ (t0 & A1 & ->)]].
+    + apply Nj. apply (T3 j i t' t A1 Hn); [destruct C as [C|[C _]]; congruence|exact Hs|exact B].
+    + destruct (G t0) as (X & _). destruct C as [C|[C _]]; congruence.
+Qed.
+
+(* ------------------------------------------------------------------ qb_loop_timer_add *)
+Lemma inv_set_regs : forall rs st, inv st -> inv_r rs -> inv (set_regs rs st).
+Proof.
+  intros rs st (I0 & IT & IP & IS & IQ & IG & IR & IRA & IF) R. unfold inv. cbn.
+  split; [exact I0|]. split; [exact IT|]. split; [exact IP|]. split; [exact IS|]. split; [exact IQ|].
+  split; [exact IG|]. split; [exact R|]. split; [exact IRA|exact IF].
+Qed.
+Lemma inv_r_assoc_set : forall rs r h, inv_r rs -> (h = 0 \/ 0 < h / TWO32) -> inv_r (assoc_set r h rs).
+Proof.
+  induction rs as [|[a w] rs IH]; intros r h I H; cbn.
+  - intros r' h' [E|[]]. inversion E; subst. exact H.
+  - destruct (a =? r).
+    + intros r' h' [E|E]; [inversion E; subst; exact H|]. apply (I r' h'). right. exact E.
+    + intros r' h' [E|E]; [apply (I r' h'); left; exact E|].
+      assert (I' : inv_r rs) by (intros x y Hx; apply (I x y); right; exact Hx).
+      exact (IH r h I' H r' h' E).
+Qed.
+Lemma inv_r_assoc : forall rs r, inv_r rs -> assoc r rs = 0 \/ 0 < assoc r rs / TWO32.
+Proof.
+  induction rs as [|[a w] rs IH]; intros r I; cbn; [left; reflexivity|].
+  destruct (a =? r).
+  - apply (I a w). left. reflexivity.
+  - apply IH. intros x y Hx. apply (I x y). right. exact Hx.
+Qed.
+
+Lemma inv_timer_activate : forall i tnew t0 st, inv st ->
+  nth_error (timers st) i = Some t0 -> t_state t0 = Empty ->
+  t_state tnew = Active -> t_uid tnew < next_uid st ->
+  (forall j t, nth_error (timers st) j = Some t -> t_uid t < t_uid tnew) ->
+  ~ gone (out st) 1 (t_uid tnew) ->
+  inv (set_timers (upd_nth i (fun _ => tnew) (timers st)) st).
+Proof.
+  intros i tnew t0 st I Hn He Ha Hu Hf Hg. pose proof I as (I0 & (T1 & T2 & T3) & _ & _ & (_ & Q2 & _) & _).
+  assert (N : forall j t', nth_error (upd_nth i (fun _ => tnew) (timers st)) j = Some t' ->
+              (j <> i /\ nth_error (timers st) j = Some t') \/ (j = i /\ t' = tnew)).
+  { intros j t' H. rewrite nth_upd_nth in H. destruct (Nat.eqb i j) eqn:E.
+    - apply Nat.eqb_eq in E; subst. rewrite Hn in H. cbn in H. inversion H; subst. right. auto.
+    - apply Nat.eqb_neq in E. left. split; [congruence|exact H]. }
+  apply inv_set_timers; [exact I| | |].
+  - split; [|split].
+    + intros j t' H E. destruct (N j t' H) as [[_ A]|[_ ->]]; [eauto|exact Ha].
+    + intros j t' H. destruct (N j t' H) as [[_ A]|[_ ->]]; [eauto|exact Hu].
+    + intros a b ta tb Ha' Hb Sa Sb E.
+      destruct (N a ta Ha') as [[Na A]|[-> ->]]; destruct (N b tb Hb) as [[Nb B]|[-> ->]]; auto.
+      * eauto.
+      * specialize (Hf a ta A). lia.
+      * specialize (Hf b tb B). lia.
+  - intros j H. destruct (Q2 j H) as (t & A & B). assert (j <> i) by (intros ->; congruence).
+    exists t. split; [|exact B]. rewrite nth_upd_nth_other; auto.
+  - intros a (j & t' & A & B & C). cbn in A. destruct (N j t' A) as [[_ A1]|[_ ->]].
+    + left. exists j, t'. auto.
+    + right. subst a. exact Hg.
+Qed.
+
+Lemma timer_slot_spec : forall st, inv st ->
+  inv (snd (timer_slot st)) /\ opframe st (snd (timer_slot st)) /\ sbr st (set_timers (timers st) (snd (timer_slot st))) /\
+  exists t0, nth_error (timers (snd (timer_slot st))) (fst (timer_slot st)) = Some t0 /\ t_state t0 = Empty.
+Proof.
+  intros st I. unfold timer_slot. destruct (find_idx _ (timers st)) as [i|] eqn:F; cbn [fst snd].
+  - split; [exact I|]. split; [apply opframe_refl|]. split; [constructor; reflexivity|].
+    apply find_idx_some in F. destruct F as (t0 & A & B). exists t0. split; [exact A|]. destruct (t_state t0); cbn in B; congruence.
+  - split; [apply inv_timers_grow; exact I|]. split; [apply opframe_set_timers; apply tparked_grow|].
+    split; [constructor; reflexivity|]. exists tslot_zero. split; [|reflexivity]. cbn. rewrite nth_error_app2 by lia.
+    now rewrite Nat.sub_diag.
+Qed.
+
+Lemma timer_add_ok : forall p d k r st, inv st -> inv (snd (timer_add p d k r st)) /\ opframe st (snd (timer_add p d k r st)).
+Proof.
+  intros p d k r st I. unfold timer_add.
+  destruct (timer_slot_spec st I) as (I1 & F1 & _ & (t0 & N0 & E0)). destruct (timer_slot st) as [i s1]. cbn [fst snd] in *.
+  unfold fresh_uid. set (n := next_uid s1). set (s2 := set_next_uid (n + 1) s1).
+  assert (I2 : inv s2) by (apply inv_bump_uid; exact I1).
+  assert (RO2 : rand_ok s2) by (destruct I2 as (_ & _ & _ & _ & _ & _ & _ & X & _); exact X).
+  destruct (draw_check_spec 200 0 s2 RO2 (or_introl ltac:(discriminate))) as (C0 & RO3 & SB3).
+  destruct (draw_check 200 0 s2) as [c s3]. cbn [fst snd] in *.
+  assert (I3 : inv s3) by (eapply inv_sbr; eauto).
+  set (s4 := emit (EvAdd 1 n p) s3).
+  assert (I4 : inv s4) by (apply inv_emit_neutral; [exact Logic.I|exact I3]).
+  match goal with |- context [upd_nth i (fun _ => ?t) _] => set (tnew := t) end.
+  assert (T4 : timers s4 = timers s1) by (cbn; rewrite (sb_timers _ _ SB3); reflexivity).
+  assert (U4 : next_uid s4 = n + 1) by (cbn; rewrite (sb_uid _ _ SB3); reflexivity).
+  set (s5 := set_timers (upd_nth i (fun _ => tnew) (timers s4)) s4).
+  assert (I5 : inv s5).
+  { apply (inv_timer_activate i tnew t0 s4 I4).
+    - rewrite T4. exact N0.
+    - exact E0.
+    - reflexivity.
+    - rewrite U4. cbn. lia.
+    - intros j t H. rewrite T4 in H. destruct I1 as (_ & (_ & X & _) & _). cbn. apply (X j t H).
+    - cbn [out emit set_out s4 tnew t_uid]. intros Hg. apply (gone_neutral (EvAdd 1 n p)) in Hg; [|exact Logic.I].
+      rewrite (sb_out _ _ SB3) in Hg. change (out s2) with (out s1) in Hg. exact (fresh_not_gone s1 1 I1 Hg). }
+  cbn [snd]. split.
+  - apply inv_set_regs; [exact I5|]. apply inv_r_assoc_set.
+    + destruct I5 as (_ & _ & _ & _ & _ & _ & X & _). exact X.
+    + right. rewrite Z.div_add_l by (unfold TWO32; lia).
+      assert (0 <= Z.of_nat i / TWO32) by (apply Z.div_pos; [lia|unfold TWO32; lia]). lia.
+  - apply (opframe_trans st s1); [exact F1|]. apply (opframe_trans s1 s2); [apply opframe_bump_uid|].
+    apply (opframe_trans s2 s3); [apply opframe_sbr; exact SB3|]. apply (opframe_trans s3 s4); [apply opframe_emit|].
+    apply (opframe_trans s4 s5).
+    + apply opframe_set_timers. intros j [(t & A & B & C) D]. split; [|exact D]. exists t. split; [|auto].
+      assert (j <> i) by (intros ->; rewrite T4, N0 in A; inversion A; subst; congruence).
+      cbn. rewrite nth_upd_nth_other; auto.
+    + apply opframe_same; try reflexivity. exists []. reflexivity.
+Qed.
+
+(* ------------------------------------------------------------------ qb_loop_timer_del *)
+Lemma timer_from_handle_spec : forall h st i t, timer_from_handle h st = Some (i, t) ->
+  nth_error (timers st) i = Some t /\ t_check t = h / TWO32 /\ h <> 0.
+Proof.
+  intros h st i t. unfold timer_from_handle. destruct (h =? 0) eqn:E; [discriminate|]. apply Z.eqb_neq in E.
+  destruct (nth_error (timers st) _) as [t'|] eqn:N; [|discriminate].
+  destruct (t_check t' =? h / TWO32) eqn:C; [|discriminate]. intros H; inversion H; subst.
+  apply Z.eqb_eq in C. auto.
+Qed.
+
+Lemma timer_del_ok : forall h st, inv st -> (h = 0 \/ 0 < h / TWO32) ->
+  inv (snd (timer_del h st)) /\ opframe st (snd (timer_del h st)).
+Proof.
+  intros h st I Hh. unfold timer_del.
+  destruct (timer_from_handle h st) as [[i t]|] eqn:TF; [|split; [exact I|apply opframe_refl]].
+  apply timer_from_handle_spec in TF. destruct TF as (N & C & H0).
+  assert (CP : 0 < t_check t) by (destruct Hh; [contradiction|lia]).
+  assert (Common : forall s1, shrinks st s1 -> occ_all (QTimer i) s1 = 0 -> t_state t <> Empty ->
+     let g := fun t => {| t_state := Empty; t_check := t_check t; t_p := t_p t; t_key := t_key t; t_uid := t_uid t; t_exp := None |} in
+     inv (set_timers (upd_nth i g (timers (emit (EvDel 1 (t_uid t)) s1))) (emit (EvDel 1 (t_uid t)) s1)) /\
+     opframe st (set_timers (upd_nth i g (timers (emit (EvDel 1 (t_uid t)) s1))) (emit (EvDel 1 (t_uid t)) s1))).
+  { intros s1 SH Z NE g.
+    assert (I1 : inv s1) by (eapply inv_shrinks; eauto).
+    assert (T1 : timers s1 = timers st) by (apply (sh_timers _ _ SH)).
+    destruct (inv_timer_clear i g s1 I1 Z (fun t => conj eq_refl (conj eq_refl eq_refl))) as [I2 NL].
+    change (set_timers (upd_nth i g (timers (emit (EvDel 1 (t_uid t)) s1))) (emit (EvDel 1 (t_uid t)) s1))
+      with (emit (EvDel 1 (t_uid t)) (set_timers (upd_nth i g (timers s1)) s1)).
+    split.
+    - apply inv_emit_del; [exact I2| |].
+      + cbn. rewrite (sh_uid _ _ SH). destruct I as (_ & (_ & X & _) & _). eauto.
+      + apply NL; [rewrite T1; exact N|exact NE].
+    - apply (opframe_trans st s1); [apply opframe_shrinks; exact SH|].
+      apply (opframe_trans s1 (set_timers (upd_nth i g (timers s1)) s1)); [|apply opframe_emit].
+      apply opframe_set_timers. intros j [(t' & A & B & C' & D) E]. split; [|exact E].
+      assert (j <> i) by (intros ->; rewrite T1, N in A; inversion A; subst; lia).
+      exists t'. cbn. rewrite nth_upd_nth_other by auto. auto. }
+  assert (SHR : shrinks st st).
+  { constructor; auto; intros; lia. }
+  destruct (t_state t) eqn:S; cbn [snd].
+  - split; [exact I|apply opframe_refl].
+  - (* JOBLIST *) apply (Common (item_del (t_p t) (QTimer i) st)); [apply shrinks_item_del| |discriminate].
+    apply item_del_clears; [|reflexivity]. destruct I as (_ & _ & _ & _ & X & _). exact X.
+  - split; [exact I|apply opframe_refl].
+  - (* ACTIVE: not on any list *) apply (Common st SHR); [|discriminate].
+    pose proof (occ_all_nonneg (QTimer i) st). destruct (Z.eq_dec (occ_all (QTimer i) st) 0) as [|NZ]; [auto|].
+    destruct (occ_all_in (QTimer i) st ltac:(lia)) as (it & A & B). destruct it; cbn in B; try discriminate.
+    apply Nat.eqb_eq in B; subst. destruct I as (_ & _ & _ & _ & (_ & Q2 & _) & _). destruct (Q2 _ A) as (t' & A' & B').
+    rewrite N in A'. inversion A'; subst. congruence.
+Qed.
